@@ -32,9 +32,33 @@ def read_object(o, k):
     got = {}
     for name in order:
         got[name] = getattr(o, name)
+    between_reads(o, k)
     for name in order[::-1]:
         got[name] = getattr(o, name)
     return got
+
+
+def between_reads(o, k):
+    """Between the two passes of reads the object is handed to analysis functions and shallow-copied (the copy then gets a
+    record of its own and is read): none of this may disturb what the object itself reports."""
+    import copy
+    import warnings
+    from eqsig import im, sdof
+    fns = [im.calc_integral_of_abs_velocity, im.calc_cumulative_abs_displacement, im.calc_integral_of_abs_acceleration,
+           im.calc_arias_intensity, im.calc_cav, im.calc_isv, im.calc_unit_kinetic_energy,
+           lambda s: sdof.calc_resp_uke_spectrum(s, periods=np.array([0.3, 1.0])),
+           lambda s: sdof.calc_input_energy_spectrum(s, periods=np.array([0.2, 0.7]))]
+    with warnings.catch_warnings():
+        warnings.simplefilter("ignore")
+        for j in range(3):
+            try:
+                fns[(k + 4 * j) % len(fns)](o)
+            except Exception:
+                pass                # whether a measure accepts this record is not this property's business
+        if k % 3 == 0:
+            twin = copy.copy(o)
+            twin.reset_values(np.asarray(o.values, dtype=float)[::-1] * 3.0 + 1.0)
+            _ = (twin.pgd, twin.pga, twin.pgv, twin.velocity, twin.displacement)
 
 
 def table_row(code, digits):
@@ -135,6 +159,9 @@ def build_traces(path, tier, seed):
         trap = (i % 3) != 2
         if i % 4 == 1:               # integer dtype record (counts): the integrals are fractional
             a = np.round(a / (np.max(np.abs(a)) + 1e-300) * 50).astype(np.int64)
+        elif rng.integers(8) == 0:   # magnitudes whose squares leave the double range (2^-560 .. 2^520): |x| itself is ordinary
+            a = a / (np.max(np.abs(a)) + 1e-300) * float(2.0 ** rng.choice([-560, -400, 380, 520]))
+            shape += " (extreme magnitude)"
         tid += 1
         recs.append(series_record(tid, fn, a, dt, trap, rng))
         meta[tid] = {"kind": "series", "fn": fn, "n": n, "shape": shape, "dt": dt, "trap": trap, "a_head": [float(x) for x in a[:6]]}
